@@ -1,6 +1,7 @@
 (* C03: collateral is conserved.  Statements only. *)
 From MP.Model Require Import Prelude U128 SInt Feed Vamm VammOps Token World Engine Runtime.
-From MP.Proofs Require Import Tactics RuntimeFacts LedgerFacts PartiesFacts Scenario.
+From MP.Proofs Require Import Tactics RuntimeFacts LedgerFacts PartiesFacts.
+From MP.Model Require Import Scenario.
 
 (* the two ledger primitives (cw20 Transfer / bank Send, cw20 TransferFrom) move, never mint or burn *)
 Theorem C03_move_conserves : forall t from to amt t', tok_move t from to amt = Ok t' ->
